@@ -12,6 +12,9 @@ STATS = {"queries": 0, "solver_s": 0.0, "by_engine": {}, "hashes": set(), "trivi
          "unknown": 0}
 
 
+FIRST_STAGE_S = 4.0   # in-process z3 (default strategy) gets this long before the external portfolio is raced
+
+
 class HarnessError(Exception):
     pass
 
@@ -84,7 +87,8 @@ def check(terms, timeout=20.0, want_model=True, inputs=None, portfolio=True, not
            "size": sum(len(t.sexpr()) for t in terms), "nconsts": len(consts)}
     # 1. in-process z3 (default strategy)
     so = z3.Solver()
-    so.set("timeout", int(timeout * 1000))
+    t1 = timeout if not portfolio else min(timeout, FIRST_STAGE_S)
+    so.set("timeout", int(t1 * 1000))
     so.add(*terms)
     r = str(so.check())
     if r in ("sat", "unsat"):
